@@ -3,7 +3,10 @@
 (b) the property on the real code: a problem and its image under a rotation (generic angle), a reflection
     and a translation (done with the repo's own Mesh.Rotate / Symmetry / Translate) have solutions related by the
     same transformation: elastic (isotropic and oriented laws with rotated axes; static and one Newmark step),
-    thermal, hyperelastic (Newton solve), beams (Euler-Bernoulli / Timoshenko, 2D / 3D) at generic inclinations."""
+    thermal, hyperelastic (Newton solve), beams (Euler-Bernoulli / Timoshenko, 2D / 3D) at generic inclinations;
+    rigid motions obtained as a sequence of movers (two reflections = a rotation, ...) with pressure loads; motions that map the
+    coordinate axes onto themselves (half / quarter turns, coordinate mirrors) with anisotropic laws given in the global axes;
+    straight runs of two beam members described towards each other, on the x-axis and inclined."""
 
 from __future__ import annotations
 
@@ -169,23 +172,23 @@ def main():
             res.count(f"law:{lk}")
             # the repo's mover must have moved every node as the transformation says
             want_X = pmap(m0.coord)
-            if np.abs(m1.coord - want_X).max() > 1e-9:
+            if not (np.abs(m1.coord - want_X).max() <= 1e-9):
                 res.fail(f"mesh mover {tk}", f"Mesh.{ {'rotation': 'Rotate', 'reflection': 'Symmetry', 'translation': 'Translate'}[tk] } moved the nodes by up to {np.abs(m1.coord - want_X).max():.2e} away from the transformation", ident)
                 continue
             if simkind == "thermal":
                 err = np.abs(u1 - u0).max() / (1 + np.abs(u0).max())
-                if err > 1e-8:
+                if not (err <= 1e-8):
                     res.fail(f"frame indifference sim=thermal transform={tk}", f"temperatures of the moved problem differ by {err:.2e} (relative)", ident)
                 continue
             want = u0 @ Q[:dim, :dim].T
             err = np.abs(u1 - want).max() / (1e-30 + np.abs(want).max())
             tol = 1e-7 if simkind != "hyperelastic" else 1e-5
-            if err > tol:
+            if not (err <= tol):
                 res.fail(f"frame indifference sim={simkind} transform={tk}", f"solution of the moved problem differs from the moved solution by {err:.2e} (relative, elem {et}, law {lk})", ident)
                 continue
-            if W0 is not None and abs(W1 - W0) > 1e-7 * (1 + abs(W0)):
+            if W0 is not None and not (abs(W1 - W0) <= 1e-7 * (1 + abs(W0))):
                 res.fail(f"energy not invariant sim={simkind} transform={tk}", f"Wdef {W0} -> {W1}", ident)
-            if s0 is not None and np.abs(s1 - s0).max() > 1e-6 * (1 + np.abs(s0).max()):
+            if s0 is not None and not (np.abs(s1 - s0).max() <= 1e-6 * (1 + np.abs(s0).max())):
                 res.fail(f"von Mises not invariant sim={simkind} transform={tk}", f"max difference {np.abs(s1 - s0).max():.2e}", ident)
 
     # ---------------- 2D problems moved out of the plane z = 0 (a translation of the whole problem) ----------------
@@ -219,7 +222,7 @@ def main():
             res.case(("out-of-plane", et, simk))
             res.count("out-of-plane:solved")
             errz = np.abs(sols_z[1] - sols_z[0]).max() / (1e-30 + np.abs(sols_z[0]).max())
-            if errz > 1e-8:
+            if not (errz <= 1e-8):
                 res.fail(f"frame indifference sim={simk} dim=2 move=translation along z", f"the same 2D problem on the mesh translated by 0.75 along z is accepted and its solution differs by {errz:.2e} (relative)", identz)
 
     # ---------------- beams ----------------
@@ -227,10 +230,13 @@ def main():
         for timo in (False, True):
             for bdim, variant in ((2, "rotation"), (3, "rotation"), (2, "rotation, default yAxis"), (2, "reflection"), (3, "reflection"),
                                   (2, "half turn of a member lying on the x-axis"), (3, "half turn of a member lying on the x-axis"),
-                                  (2, "rotation, one dynamic step"), (3, "rotation, one dynamic step")):
+                                  (2, "rotation, one dynamic step"), (3, "rotation, one dynamic step"), (3, "translation far from the origin, fine mesh")):
                 L = 4.0
                 sect = Mesher().Mesh_2D(Domain(Point(), Point(0.5, 0.25)))
-                if variant.startswith("half turn"):
+                far = np.array([1.0e4, 2.0e4, 3.0e4]) if variant.startswith("translation far") else np.zeros(3)
+                if variant.startswith("translation far"):
+                    Q = np.eye(3)                        # a pure translation, large with respect to the member (the node selections must still find its nodes)
+                elif variant.startswith("half turn"):
                     Q = np.diag([-1.0, -1.0, 1.0])       # exactly: the moved member runs from the origin towards -x, on the axis
                 elif variant == "reflection":
                     nrm = (rng.randint(1, 3), rng.randint(-3, 3), 0) if bdim == 2 else (rng.randint(1, 3), rng.randint(-3, 3), rng.randint(-3, 3))
@@ -253,10 +259,11 @@ def main():
                     for moved in (False, True):
                         Qm = Q if moved else np.eye(3)
                         dm = detQ if moved else 1.0
-                        pA = off if not moved else Q @ off
-                        pB = pA + Qm @ np.array([L, 0, 0])
+                        pA = off if not moved else Q @ off + far
+                        axis0 = np.array([2.0, 1.0, 2.0]) / 3.0 if variant.startswith("translation far") else np.array([1.0, 0, 0])
+                        pB = pA + Qm @ (L * axis0)
                         yAxis = (0.0, 1.0, 0.0) if variant.endswith("default yAxis") else tuple(Qm @ np.array([0.0, 1.0, 0.0]))
-                        beams = [Models.Beam.Isotropic(bdim, Line(Point(*pA), Point(*pB), L / 3), sect, 1000.0, 0.25, yAxis)]
+                        beams = [Models.Beam.Isotropic(bdim, Line(Point(*pA), Point(*pB), L / (40 if variant.startswith("translation far") else 3)), sect, 1000.0, 0.25, yAxis)]
                         mesh = Mesher().Mesh_Beams(beams, elemType=ElemType(et))
                         s = Simulations.Beam(mesh, Models.Beam.BeamStructure(beams), useTimoshenko=timo)
                         if variant.endswith("dynamic step"):
@@ -273,10 +280,10 @@ def main():
                             s.add_neumann(nB, list(fq) + list(mq), ["x", "y", "z", "rx", "ry", "rz"])
                             s.add_lineLoad(mesh.nodes, [float(0.5 * v) for v in fq], ["x", "y", "z"])
                         u = np.asarray(s.Solve()).reshape(mesh.Nn, -1)
-                        order = np.argsort((mesh.coord - pA) @ (Qm @ np.array([1.0, 0, 0])))
+                        order = np.argsort((mesh.coord - pA) @ (Qm @ axis0))
                         sols.append(u[order])
                         # internal forces in the member's own axes, element by element along the member
-                        eorder = np.argsort((mesh.coord[np.asarray(mesh.groupElem.connect)].mean(1) - pA) @ (Qm @ np.array([1.0, 0, 0])))
+                        eorder = np.argsort((mesh.coord[np.asarray(mesh.groupElem.connect)].mean(1) - pA) @ (Qm @ axis0))
                         own.append({nm: np.asarray(s.Result(nm, nodeValues=False)).ravel()[eorder] for nm in (["N", "Ty", "Mz"] if bdim == 2 else ["N", "Mx", "My", "Mz"])})
                 except Exception as ex:  # noqa: BLE001
                     res.fail(f"moved beam raises timo={timo} dim={bdim}", f"{type(ex).__name__}: {str(ex)[:150]}", ident)
@@ -307,7 +314,7 @@ def main():
                         res.case(("beam", et, timo, "in-place turn about the member"))
                         res.count("beam:in-place turn")
                         err0 = np.abs(ub - want_b).max() / (1e-30 + np.abs(want_b).max())
-                        if err0 > 1e-7:
+                        if not (err0 <= 1e-7):
                             res.fail(f"beam frame indifference timo={timo} dim=3 elem={et} section axes changed in place", f"after beam.yAxis was turned by {ang0} rad about the member on the existing model, the response differs from the turned response by {err0:.2e} (relative)",
                                      dict(ident, variant="in-place turn about the member", angle=ang0))
                     except Exception as ex:  # noqa: BLE001
@@ -320,16 +327,199 @@ def main():
                 else:
                     want = np.c_[u0[:, :3] @ Q.T, detQ * (u0[:, 3:] @ Q.T)]
                 err = np.abs(u1 - want).max() / (1e-30 + np.abs(want).max())
-                if err > 1e-7:
+                if not (err <= 1e-7):
                     res.fail(f"beam frame indifference timo={timo} dim={bdim} elem={et} {variant}", f"response of the moved member ({variant}) differs from the transformed response by {err:.2e} (relative)", ident)
                 elif detQ > 0 and not variant.endswith("default yAxis"):
                     # "the same response in its own axes whatever its inclination": internal forces of the rotated member
                     # (with the default yAxis the section axes do not turn with the member: its own axes are other ones)
-                    badf = [nm for nm in own[0] if np.abs(own[1][nm] - own[0][nm]).max() > 1e-6 * (1e-30 + max(np.abs(v).max() for v in own[0].values()))]
+                    badf = [nm for nm in own[0] if not (np.abs(own[1][nm] - own[0][nm]).max() <= 1e-6 * (1e-30 + max(np.abs(v).max() for v in own[0].values())))]
                     if badf:
                         res.fail(f"beam internal forces not frame indifferent timo={timo} dim={bdim} elem={et} {variant}",
                                  f"internal forces {badf} of the moved member ({variant}) differ from those of the original member in its own axes: "
                                  f"{badf[0]} = {own[1][badf[0]][:3].tolist()} instead of {own[0][badf[0]][:3].tolist()}", ident)
+
+    # ---------------- rigid motions obtained as a sequence of movers; loads that follow the normal ----------------
+    # a rigid motion is a rigid motion however it was obtained: two reflections through parallel planes are a translation,
+    # through secant planes a rotation, ... A pressure (a scalar along the normal of the loaded face) moves with the problem.
+    # NOTE: the pressure is applied for proper motions only (det Q = +1); see the report of the harness author: after ONE
+    # reflection the unchanged library pushes the other way (the normals do not follow the matter).
+    sequences = [("reflection", "reflection"), ("rotation", "translation"), ("reflection", "translation", "reflection"),
+                 ("rotation", "reflection"), ("reflection", "rotation", "reflection")]
+    for k, et in enumerate(["TRI6", "QUAD4", "TETRA4", "HEXA8"] if not thorough else ["TRI3", "TRI6", "QUAD4", "QUAD8", "TETRA4", "TETRA10", "HEXA8", "PRISM6"]):
+        dim = M.dim_of(et)
+        for seq in (sequences if thorough else [sequences[0], sequences[(k % 4) + 1]]):
+            steps = [draw_transform(rng, dim, tk) for tk in seq]
+            Q = np.eye(3)
+            for st in steps:
+                Q = st[1] @ Q
+            proper = float(np.linalg.det(Q)) > 0
+            pres = [rng.randint(1, 4) / 8, -rng.randint(1, 4) / 16]
+            tvec = np.array([rng.randint(-4, 4) / 8, rng.randint(1, 4) / 8, rng.randint(-4, 4) / 8 if dim == 3 else 0.0])
+            thickness = 0.5 if dim == 2 else 1.0
+            # improper sequences (odd number of reflections): once with the traction only, once with the pressure as well (known finding: the
+            # normals do not follow a reflection, see known_findings.txt)
+            for with_pressure in ([True] if proper else [False, True]):
+                ident = dict(elemType=et, sequence=[st[0] for st in steps], pressure=pres if with_pressure else None, traction=tvec.tolist(), thickness=thickness,
+                             bc="clamp x==0; pressure[0] on x==2, pressure[1] on y==1 (improper sequences: with and without); traction on x==2")
+                out = []
+                try:
+                    for moved in (False, True):
+                        mesh = build_mesh(et, dim)
+                        clamp = mesh.Nodes_Conditions(lambda x, y, z: x == 0)
+                        face = mesh.Nodes_Conditions(lambda x, y, z: x == 2.0)
+                        top = mesh.Nodes_Conditions(lambda x, y, z: y == 1.0)
+                        X0 = mesh.coord.copy()
+                        if moved:
+                            for st in steps:
+                                st[2](mesh)
+                        Qm = Q if moved else np.eye(3)
+                        unk = ["x", "y", "z"][:dim]
+                        s = Simulations.Elastic(mesh, make_law(rng, "iso", dim, None, None, thickness))
+                        s.add_dirichlet(clamp, [0.0] * dim, unk)
+                        if with_pressure:
+                            s.add_pressureLoad(face, pres[0])
+                            s.add_pressureLoad(top, pres[1])
+                        s.add_surfLoad(face, [float(v) for v in (Qm @ tvec)[:dim]], unk)
+                        u = np.asarray(s.Solve()).reshape(mesh.Nn, dim)
+                        out.append((X0, mesh.coord.copy(), u, float(s.Result("Wdef"))))
+                except Exception as ex:  # noqa: BLE001
+                    res.fail(f"problem moved by a sequence of movers raises elem={et}", f"{type(ex).__name__}: {str(ex)[:150]}", ident)
+                    continue
+                (X0, _, u0, W0), (_, X1, u1, W1) = out
+                res.case(("sequence", et, seq))
+                res.count("sequence:" + "+".join(seq))
+                want_X = X0
+                for st in steps:
+                    want_X = st[3](want_X)
+                if not (np.abs(X1 - want_X).max() <= 1e-9):
+                    res.fail("mesh movers in sequence", f"after {'+'.join(seq)} the nodes are up to {np.abs(X1 - want_X).max():.2e} away from the composed transformation", ident)
+                    continue
+                want = u0 @ Q[:dim, :dim].T
+                err = np.abs(u1 - want).max() / (1e-30 + np.abs(want).max())
+                if not (err <= 1e-7):
+                    res.fail("frame indifference sim=static motion=sequence of movers" + (" load=pressure" if proper else (" load=pressure after an odd number of reflections" if with_pressure else "")),
+                             f"after {'+'.join(seq)} (det = {'+1' if proper else '-1'}) the solution of the moved problem differs from the moved solution by {err:.2e} (relative, elem {et})", ident)
+                    continue
+                if not (abs(W1 - W0) <= 1e-7 * (1 + abs(W0))):
+                    res.fail("energy not invariant motion=sequence of movers", f"Wdef {W0} -> {W1} after {'+'.join(seq)}", ident)
+
+    # ---------------- motions that map the coordinate axes onto themselves (half / quarter turns, coordinate mirrors) ----------------
+    # "for all rotations" includes the ones after which the material axes lie along the global axes again, possibly reversed:
+    # the law given in its own axes (here the global ones) must still be carried by the motion (extension-shear couplings change sign).
+    # In 2D a mirrored anisotropic law is expressible (axis_1, axis_2 mirrored in the plane: the third axis flips, which the in-plane law does not see);
+    # in 3D only proper motions are used for the fully anisotropic law.
+    special = {2: [("half turn", lambda c: np.diag([-1.0, -1.0, 1.0]), lambda m, c: m.Rotate(180.0, tuple(c), (0, 0, 1))),
+                   ("quarter turn", lambda c: rodrigues((0, 0, 1), np.pi / 2), lambda m, c: m.Rotate(90.0, tuple(c), (0, 0, 1))),
+                   ("mirror x", lambda c: np.diag([-1.0, 1.0, 1.0]), lambda m, c: m.Symmetry(tuple(c), (1, 0, 0))),
+                   ("mirror y", lambda c: np.diag([1.0, -1.0, 1.0]), lambda m, c: m.Symmetry(tuple(c), (0, 1, 0)))],
+               3: [("half turn on x", lambda c: np.diag([1.0, -1.0, -1.0]), lambda m, c: m.Rotate(180.0, tuple(c), (1, 0, 0))),
+                   ("half turn on y", lambda c: np.diag([-1.0, 1.0, -1.0]), lambda m, c: m.Rotate(180.0, tuple(c), (0, 1, 0))),
+                   ("half turn on z", lambda c: np.diag([-1.0, -1.0, 1.0]), lambda m, c: m.Rotate(180.0, tuple(c), (0, 0, 1))),
+                   ("quarter turn on z", lambda c: rodrigues((0, 0, 1), np.pi / 2), lambda m, c: m.Rotate(90.0, tuple(c), (0, 0, 1))),
+                   ("mirror x", lambda c: np.diag([-1.0, 1.0, 1.0]), lambda m, c: m.Symmetry(tuple(c), (1, 0, 0))),
+                   ("mirror z", lambda c: np.diag([1.0, 1.0, -1.0]), lambda m, c: m.Symmetry(tuple(c), (0, 0, 1)))]}
+    for et in (["TRI3", "QUAD8", "TETRA4", "PRISM6"] if not thorough else ["TRI3", "TRI6", "QUAD4", "QUAD8", "TETRA4", "HEXA8", "PRISM6"]):
+        dim = M.dim_of(et)
+        for name, Qf, mv in special[dim]:
+            c = np.array([0.75, -0.5, 0.25 if dim == 3 else 0.0])
+            Q = Qf(c)
+            mirror = float(np.linalg.det(Q)) < 0
+            for lk in (["aniso", "ortho"] if not thorough else ["aniso", "ortho", "ti"]):
+                if lk == "aniso" and mirror and dim == 3:
+                    continue    # left-handed frame: not a law the constructor can express
+                tvec = np.array([rng.randint(1, 4) / 8, rng.randint(-4, 4) / 8, rng.randint(1, 4) / 8 if dim == 3 else 0.0])
+                thickness = 0.5 if dim == 2 else 1.0
+                ident = dict(elemType=et, motion=name, center=c.tolist(), law=lk, axes="material axes of the original problem = global x, y", traction=tvec.tolist(), thickness=thickness)
+                out = []
+                try:
+                    for moved in (False, True):
+                        mesh = build_mesh(et, dim)
+                        clamp = mesh.Nodes_Conditions(lambda x, y, z: x == 0)
+                        face = mesh.Nodes_Conditions(lambda x, y, z: x == 2.0)
+                        if moved:
+                            mv(mesh, c)
+                        Qm = Q if moved else np.eye(3)
+                        A1, A2 = Qm @ np.array([1.0, 0, 0]), Qm @ np.array([0, 1.0, 0])
+                        s = Simulations.Elastic(mesh, make_law(rng, lk, dim, A1[:dim], A2[:dim], thickness))
+                        unk = ["x", "y", "z"][:dim]
+                        s.add_dirichlet(clamp, [0.0] * dim, unk)
+                        s.add_surfLoad(face, [float(v) for v in (Qm @ tvec)[:dim]], unk)
+                        u = np.asarray(s.Solve()).reshape(mesh.Nn, dim)
+                        out.append((mesh.coord.copy(), u, float(s.Result("Wdef"))))
+                except Exception as ex:  # noqa: BLE001
+                    res.fail(f"problem moved onto the coordinate axes raises elem={et} law={lk}", f"{type(ex).__name__}: {str(ex)[:150]}", ident)
+                    continue
+                (X0, u0, W0), (X1, u1, W1) = out
+                res.case(("axes onto axes", et, name, lk))
+                res.count("axes onto axes:" + name)
+                if not (np.abs(X1 - ((X0 - c) @ Q.T + c)).max() <= 1e-9):
+                    res.fail(f"mesh mover {name}", f"the nodes are up to {np.abs(X1 - ((X0 - c) @ Q.T + c)).max():.2e} away from the transformation", ident)
+                    continue
+                want = u0 @ Q[:dim, :dim].T
+                err = np.abs(u1 - want).max() / (1e-30 + np.abs(want).max())
+                if not (err <= 1e-7):
+                    res.fail(f"frame indifference sim=static law={lk} motion maps the coordinate axes onto themselves",
+                             f"after a {name} (material axes along the global axes before and after, up to their sense) the solution of the moved problem differs from the moved solution by {err:.2e} (relative, elem {et})", ident)
+                    continue
+                if not (abs(W1 - W0) <= 1e-7 * (1 + abs(W0))):
+                    res.fail(f"energy not invariant law={lk} motion maps the coordinate axes onto themselves", f"Wdef {W0} -> {W1} after a {name}", ident)
+
+    # ---------------- a straight run made of two members described towards each other ----------------
+    # "a beam or frame member gives the same response in its own axes whatever its inclination": also when the run lies on the
+    # x-axis and its members do not have the same sense (each one described from its support towards the loaded joint).
+    for et in (["SEG2", "SEG3"] if not thorough else ["SEG2", "SEG3", "SEG4"]):
+        for timo in (False, True):
+            for bdim in (2, 3):
+                L1, L2 = 2.5, 3.5
+                sect = Mesher().Mesh_2D(Domain(Point(), Point(0.5, 0.25)))
+                Q = rodrigues((0, 0, 1), rng.random() * 5 + 0.3) if bdim == 2 else rodrigues((rng.randint(1, 3), rng.randint(-3, 3), rng.randint(-3, 3)), rng.random() * 5 + 0.3)
+                f = np.array([rng.randint(1, 4) / 4, -rng.randint(1, 4) / 4, rng.randint(-4, 4) / 4 if bdim == 3 else 0.0])
+                mom = np.array([rng.randint(-4, 4) / 8 if bdim == 3 else 0.0, rng.randint(-4, 4) / 8 if bdim == 3 else 0.0, rng.randint(1, 4) / 8])
+                ident = dict(beam=et, timoshenko=timo, dim=bdim, Q=Q.tolist(), force=f.tolist(), moment=mom.tolist(),
+                             structure="run on the x-axis from 0 to 6: members (0 -> 2.5) and (6 -> 2.5), clamped at 0, pinned at 6, loaded at the joint, line load on both; compared with the run turned by Q")
+                sols = []
+                try:
+                    for moved in (False, True):
+                        Qm = Q if moved else np.eye(3)
+                        ex = Qm @ np.array([1.0, 0, 0])
+                        pA, pJ, pB = 0.0 * ex, L1 * ex, (L1 + L2) * ex
+                        yAxis = tuple(Qm @ np.array([0.0, 1.0, 0.0]))
+                        beams = [Models.Beam.Isotropic(bdim, Line(Point(*pA), Point(*pJ), L1 / 3), sect, 1000.0, 0.25, yAxis),
+                                 Models.Beam.Isotropic(bdim, Line(Point(*pB), Point(*pJ), L2 / 3), sect.copy(), 1000.0, 0.25, yAxis)]
+                        mesh = Mesher().Mesh_Beams(beams, elemType=ElemType(et))
+                        s = Simulations.Beam(mesh, Models.Beam.BeamStructure(beams), useTimoshenko=timo)
+                        nA, nJ, nB = mesh.Nodes_Point(Point(*pA)), mesh.Nodes_Point(Point(*pJ)), mesh.Nodes_Point(Point(*pB))
+                        if nJ.size > 1:
+                            s.add_connection_fixed(nJ)
+                        fq, mq = Qm @ f, Qm @ mom
+                        if bdim == 2:
+                            s.add_dirichlet(nA, [0, 0, 0], ["x", "y", "rz"])
+                            s.add_dirichlet(nB, [0, 0], ["x", "y"])
+                            s.add_neumann(nJ[:1], [fq[0], fq[1], mom[2]], ["x", "y", "rz"])
+                            s.add_lineLoad(mesh.nodes, [float(0.5 * fq[0]), float(0.5 * fq[1])], ["x", "y"])
+                        else:
+                            s.add_dirichlet(nA, [0] * 6, ["x", "y", "z", "rx", "ry", "rz"])
+                            s.add_dirichlet(nB, [0] * 3, ["x", "y", "z"])
+                            s.add_neumann(nJ[:1], list(fq) + list(mq), ["x", "y", "z", "rx", "ry", "rz"])
+                            s.add_lineLoad(mesh.nodes, [float(0.5 * v) for v in fq], ["x", "y", "z"])
+                        u = np.asarray(s.Solve()).reshape(mesh.Nn, -1)
+                        absc = np.round(mesh.coord @ ex, 9)
+                        order = np.lexsort((np.arange(absc.size), absc))
+                        sols.append((absc[order], u[order]))
+                except Exception as ex_:  # noqa: BLE001
+                    res.fail(f"two-member run raises timo={timo} dim={bdim}", f"{type(ex_).__name__}: {str(ex_)[:150]}", ident)
+                    continue
+                (a0, u0), (a1_, u1) = sols
+                res.case(("beam run", et, timo, bdim))
+                res.count("beam:two members towards each other")
+                if a0.shape != a1_.shape or not (np.abs(a0 - a1_).max() <= 1e-8):
+                    res.fail("two-member run: the turned run is not meshed like the original", f"{a0.size} / {a1_.size} nodes", ident)
+                    continue
+                want = np.c_[u0[:, :2] @ Q[:2, :2].T, u0[:, 2]] if bdim == 2 else np.c_[u0[:, :3] @ Q.T, u0[:, 3:] @ Q.T]
+                err = np.abs(u1 - want).max() / (1e-30 + np.abs(want).max())
+                if not (err <= 1e-7):
+                    res.fail(f"beam frame indifference timo={timo} dim={bdim} elem={et} run of two members described towards each other",
+                             f"the run lying on the x-axis and the same run turned by a generic rotation have responses that differ by {err:.2e} (relative) once brought back in the same axes", ident)
 
     answers = driver.ask(lines)
     if answers is None:
@@ -344,12 +534,13 @@ def main():
             except Exception:  # noqa: BLE001
                 res.disagree("Get_Pmat", dict(dim=dim, model=ans[:80]))
                 continue
-            if np.abs(model - P).max() > 1e-12:
+            if not (np.abs(model - P).max() <= 1e-12):
                 res.disagree("Get_Pmat", dict(dim=dim, maxdiff=float(np.abs(model - P).max())))
     res.search_note = "every moved problem has the moved solution on the sampled meshes, laws and transformations"
     res.write("problems moved with Mesh.Rotate (generic angles, generic axes in 3D) / Mesh.Symmetry / Mesh.Translate: clamp + surface traction + body force on meshes of 2D / 3D element types, "
               "isotropic / transversely isotropic / orthotropic / anisotropic laws with axes moved with the problem, static and one Newmark step, heat conduction, hyperelastic Newton solve; "
-              "cantilever beams (Euler-Bernoulli / Timoshenko, 2D / 3D) at generic inclinations with tip force, tip moment and line load; distinct = distinct (element type, transformation, law, simulation)")
+              "cantilever beams (Euler-Bernoulli / Timoshenko, 2D / 3D) at generic inclinations with tip force, tip moment and line load; sequences of movers with pressure loads; "
+              "half / quarter turns and coordinate mirrors with laws given in the global axes; two-member beam runs described towards each other; distinct = distinct (element type, transformation, law, simulation)")
 
 
 if __name__ == "__main__":
